@@ -260,4 +260,84 @@ theorem lzmaCodec_lag (dictSize : Nat) (P : Parser) (hl : P.Lag) :
         exact hl p s d a syms hpick
     · cases h
 
+/-- everything `choose` of the C01 codec says about a chunk it produced -/
+theorem lzmaCodec_choose_inv (dictSize : Nat) (P : Parser) {fl : Bool} {p : Flush.Props} {s : St} {d a : Bytes} {ch : Choice} {s' : St}
+    (h : (lzmaCodec dictSize P).choose fl p s d a = some (ch, s')) :
+    ∃ syms ops pos' rb', P.pick fl p s d a = some syms ∧ ch.n = symsLen syms ∧
+      PsOk (toProps p) s.1 ∧ s.2.state < 12 ∧ 1 ≤ ch.n ∧ ch.n ≤ a.length ∧ PropsOk (toProps p) ∧
+      lzExpand dictSize syms s.2 d.reverse = some ((a.take ch.n).reverse ++ d.reverse) ∧
+      encSyms (toProps p) dictSize syms d.length s.2 d.reverse = some (ops, pos', s'.2, rb') ∧
+      ch.payload = (encFlush (encOps s.1 Enc.init ops).2).out ∧ s'.1 = (encOps s.1 Enc.init ops).1 := by
+  simp only [lzmaCodec] at h
+  cases hpick : P.pick fl p s d a with
+  | none => simp [hpick] at h
+  | some syms =>
+    simp only [hpick] at h
+    split at h
+    · rename_i hg
+      simp only [Bool.and_eq_true, decide_eq_true_eq, beq_iff_eq] at hg
+      obtain ⟨⟨⟨⟨⟨⟨g1, g2⟩, g3⟩, g4⟩, g5⟩, g6⟩, g7⟩ := hg
+      split at h
+      · cases h
+      · rename_i ops pos' st' rb' henc
+        simp only [Option.some.injEq, Prod.mk.injEq] at h
+        obtain ⟨hch, hs'⟩ := h
+        subst hch; subst hs'
+        exact ⟨syms, ops, pos', rb', rfl, rfl, psOkB_iff g1, g2, g3, g4, ⟨g5, g6⟩, g7, henc, rfl, rfl⟩
+    · cases h
+
+/-- The simplest real parser: when flushing, the next (at most 64 KiB) unencoded bytes as LZMA literals; under LZMA_RUN it
+    never closes a chunk. (A chunk whose literals do not shrink it is stored uncompressed by `L2.emit`, as in lzma2_encode.) -/
+def literalParser : Parser :=
+  { pick := fun fl _ _ _ a => if fl && !a.isEmpty then some ((a.take LZMA2_CHUNK_MAX).map Sym.lit) else none }
+
+theorem symsLen_lits (l : Bytes) : symsLen (l.map Sym.lit) = l.length := by
+  induction l with
+  | nil => rfl
+  | cons b t ih => simp [symsLen, Sym.len, ih]; omega
+
+theorem lzExpand_lits (dictSize : Nat) : ∀ (l : Bytes) (s : SymSt) (rb : Bytes),
+    lzExpand dictSize (l.map Sym.lit) s rb = some (l.reverse ++ rb)
+  | [], _, _ => by simp [lzExpand]
+  | b :: t, s, rb => by
+    simp only [List.map_cons, lzExpand, applySym]
+    rw [lzExpand_lits dictSize t]
+    simp
+
+theorem literalParser_lag : literalParser.Lag := by
+  intro p s d a syms h
+  simp [literalParser] at h
+
+theorem literalParser_live (dictSize : Nat) : literalParser.Live dictSize := by
+  intro p s d a _ _ _ ha
+  have hne : a.isEmpty = false := by cases a <;> simp at ha ⊢
+  refine ⟨(a.take LZMA2_CHUNK_MAX).map Sym.lit, by simp [literalParser, ha], ?_, ?_, ?_⟩
+  · rw [symsLen_lits]
+    cases a with
+    | nil => exact absurd rfl ha
+    | cons b t => simp [LZMA2_CHUNK_MAX]
+  · rw [symsLen_lits]; simp
+  · rw [symsLen_lits, lzExpand_lits]
+    simp [List.take_take]
+
+theorem literalParser_limits (dictSize : Nat) (hd : dictSize ≤ 4294967295) :
+    ∀ (fl : Bool) (p : Flush.Props) (s : St) (d a : Bytes) (ch : Choice) (s' : St),
+      (lzmaCodec dictSize literalParser).choose fl p s d a = some (ch, s') →
+        ch.n ≤ LZMA2_UNCOMPRESSED_MAX ∧ (ch.isLzma = true → ch.payload.length ≤ LZMA2_CHUNK_MAX) ∧
+        (ch.isLzma = false → ch.n ≤ LZMA2_CHUNK_MAX) := by
+  intro fl p s d a ch s' h
+  obtain ⟨syms, ops, pos', rb', hpick, hn, _⟩ := lzmaCodec_choose_inv dictSize literalParser h
+  have hle : ch.n ≤ LZMA2_CHUNK_MAX := by
+    simp only [literalParser] at hpick
+    split at hpick
+    · simp only [Option.some.injEq] at hpick
+      rw [hn, ← hpick, symsLen_lits]
+      simp
+    · cases hpick
+  refine ⟨by unfold LZMA2_CHUNK_MAX at hle; unfold LZMA2_UNCOMPRESSED_MAX; omega, ?_, fun _ => hle⟩
+  intro hz
+  simp only [Choice.isLzma, decide_eq_true_eq] at hz
+  omega
+
+
 end XzVerif.FlushC01
